@@ -64,6 +64,40 @@ impl Handle {
             Handle::D(r) => Handle::D(to_dyn!(Bump, r.clone())),
         }
     }
+    /// `to_dyn!(Bump, <the handle itself, MOVED out of its slot inside the macro argument>)`
+    fn into_dyn(slot: &mut Option<Handle>) -> Handle {
+        match slot.as_ref().expect("handle numbers were checked while parsing") {
+            Handle::C(_) => Handle::D(to_dyn!(
+                Bump,
+                match slot.take().unwrap() {
+                    Handle::C(r) => r,
+                    Handle::D(_) => unreachable!(),
+                }
+            )),
+            Handle::D(_) => Handle::D(to_dyn!(
+                Bump,
+                match slot.take().unwrap() {
+                    Handle::D(r) => r,
+                    Handle::C(_) => unreachable!(),
+                }
+            )),
+        }
+    }
+    /// A raw-pointer `Reference` to the same object, made the way `unsafe` user code makes one; takes no share of a count.
+    fn raw_alias(&self) -> Handle {
+        match self {
+            Handle::C(r) => Handle::C(raw_of(r.clone())),
+            Handle::D(r) => Handle::D(raw_of(r.clone())),
+        }
+    }
+    /// `self.clone_from(source)`; both must have the same static type (checked while parsing).
+    fn clone_from_handle(&mut self, source: &Handle) {
+        match (self, source) {
+            (Handle::C(a), Handle::C(b)) => a.clone_from(b),
+            (Handle::D(a), Handle::D(b)) => a.clone_from(b),
+            _ => unreachable!("static types were checked while parsing"),
+        }
+    }
     fn read(&self) -> i64 {
         match self {
             Handle::C(r) => r.borrow().get(),
@@ -89,6 +123,26 @@ impl Handle {
                 b.put(v + 1);
             }
         }
+    }
+}
+
+/// See [`Handle::raw_alias`]. The temporary clone that is taken apart here is dropped again before returning.
+fn raw_of<T: ?Sized>(r: Reference<T>) -> Reference<T> {
+    use rrtk::reference::ReferenceUnsafe;
+    match r.into_inner() {
+        ReferenceUnsafe::Ptr(p) => unsafe { Reference::from_ptr(p) },
+        #[cfg(feature = "alloc")]
+        ReferenceUnsafe::RcRefCell(rc) => unsafe { Reference::from_ptr(rc.as_ptr()) },
+        #[cfg(feature = "std")]
+        ReferenceUnsafe::PtrRwLock(p) => unsafe { Reference::from_ptr_rw_lock(p) },
+        #[cfg(feature = "std")]
+        ReferenceUnsafe::PtrMutex(p) => unsafe { Reference::from_ptr_mutex(p) },
+        #[cfg(feature = "std")]
+        ReferenceUnsafe::ArcRwLock(a) => unsafe { Reference::from_ptr_rw_lock(Arc::as_ptr(&a)) },
+        #[cfg(feature = "std")]
+        ReferenceUnsafe::ArcMutex(a) => unsafe { Reference::from_ptr_mutex(Arc::as_ptr(&a)) },
+        // (the enum is `#[non_exhaustive]`)
+        _ => unimplemented!("a Reference variant this harness does not know"),
     }
 }
 
@@ -135,38 +189,92 @@ enum Ev {
     Inc(usize),
     Dr(usize),
     Live,
+    /// `dm:<h>`: `to_dyn!` of the handle itself, moved out of its slot inside the macro argument
+    Dm(usize),
+    /// `al:<h>`: a raw-pointer alias of the object (no share of the count)
+    Al(usize),
+    /// `cf:<i>:<j>`: `handle_i.clone_from(&handle_j)`
+    Cf(usize, usize),
 }
-/// Parse the events, tracking which handles exist: `alive[h]` is false once `dr:<h>` was seen.
-fn p_events(toks: &[&str]) -> R<Vec<Ev>> {
-    let mut alive = vec![true];
+/// Parse the events, simulating which handles exist (`None` once dropped or moved out of), whether each one OWNS a share of
+/// the target (the counted variants' own handles do, raw aliases do not) and whether it is a `dyn` handle. A line that would
+/// touch the target after its last owner is gone — possible only through a raw alias — or that names a dead handle, or that
+/// asks for `clone_from` between a `dyn` and a concrete handle (or a handle and itself), is `BADLINE`: nothing of it runs.
+fn p_events(toks: &[&str], counted: bool) -> R<Vec<Ev>> {
+    #[derive(Clone, Copy)]
+    struct H {
+        owning: bool,
+        dynamic: bool,
+    }
+    let mut hs: Vec<Option<H>> = vec![Some(H {
+        owning: counted,
+        dynamic: false,
+    })];
+    let mut freed = false;
     let mut events = Vec::with_capacity(toks.len());
-    let handle = |t: &str, alive: &Vec<bool>| -> R<usize> {
+    fn handle(t: &str, hs: &Vec<Option<H>>) -> R<(usize, H)> {
         let h = p_usize(t)?;
-        if alive.get(h).copied() == Some(true) {
-            Ok(h)
-        } else {
-            Err(Bad)
+        match hs.get(h).copied().flatten() {
+            Some(x) => Ok((h, x)),
+            None => Err(Bad),
         }
-    };
+    }
+    fn drop_one(x: H, hs: &Vec<Option<H>>, counted: bool, freed: &mut bool) {
+        if counted && x.owning && !hs.iter().flatten().any(|y| y.owning) {
+            *freed = true;
+        }
+    }
     for t in toks {
         let ev = if let Some(r) = t.strip_prefix("cl:") {
-            let h = handle(r, &alive)?;
-            alive.push(true);
+            let (h, x) = handle(r, &hs)?;
+            hs.push(Some(x));
             Ev::Cl(h)
         } else if let Some(r) = t.strip_prefix("dy:") {
-            let h = handle(r, &alive)?;
-            alive.push(true);
+            let (h, x) = handle(r, &hs)?;
+            hs.push(Some(H { dynamic: true, ..x }));
             Ev::Dy(h)
+        } else if let Some(r) = t.strip_prefix("dm:") {
+            let (h, x) = handle(r, &hs)?;
+            hs[h] = None;
+            hs.push(Some(H { dynamic: true, ..x }));
+            Ev::Dm(h)
+        } else if let Some(r) = t.strip_prefix("al:") {
+            let (h, x) = handle(r, &hs)?;
+            if freed {
+                return Err(Bad);
+            }
+            hs.push(Some(H { owning: false, ..x }));
+            Ev::Al(h)
+        } else if let Some(r) = t.strip_prefix("cf:") {
+            let (i, j) = r.split_once(':').ok_or(Bad)?;
+            let (i, old) = handle(i, &hs)?;
+            let (j, src) = handle(j, &hs)?;
+            if i == j || old.dynamic != src.dynamic {
+                return Err(Bad);
+            }
+            hs[i] = Some(src);
+            drop_one(old, &hs, counted, &mut freed);
+            Ev::Cf(i, j)
         } else if let Some(r) = t.strip_prefix("rd:") {
-            Ev::Rd(handle(r, &alive)?)
+            if freed {
+                return Err(Bad);
+            }
+            Ev::Rd(handle(r, &hs)?.0)
         } else if let Some(r) = t.strip_prefix("wr:") {
             let (h, v) = r.split_once(':').ok_or(Bad)?;
-            Ev::Wr(handle(h, &alive)?, p_i64(v)?)
+            if freed {
+                return Err(Bad);
+            }
+            Ev::Wr(handle(h, &hs)?.0, p_i64(v)?)
         } else if let Some(r) = t.strip_prefix("inc:") {
-            Ev::Inc(handle(r, &alive)?)
+            if freed {
+                return Err(Bad);
+            }
+            Ev::Inc(handle(r, &hs)?.0)
         } else if let Some(r) = t.strip_prefix("dr:") {
-            let h = handle(r, &alive)?;
-            alive[h] = false;
+            let (h, x) = handle(r, &hs)?;
+            hs[h] = None;
+            drop_one(x, &hs, counted, &mut freed);
             Ev::Dr(h)
         } else if *t == "live" {
             Ev::Live
@@ -183,7 +291,7 @@ fn events(toks: &[&str], out: &mut Vec<String>) -> R<()> {
     if !available(variant) {
         return Err(NoImpl);
     }
-    let evs = p_events(&toks[2..])?;
+    let evs = p_events(&toks[2..], matches!(variant, "rc" | "arw" | "amx"))?;
     let (first, flag) = make(variant)?;
     let mut handles: Vec<Option<Handle>> = vec![Some(Handle::C(first))];
     // Handle numbers were checked while parsing.
@@ -216,6 +324,23 @@ fn events(toks: &[&str], out: &mut Vec<String>) -> R<()> {
                 dash()
             }
             Ev::Live => (!flag.load(Ordering::SeqCst)).enc(),
+            Ev::Dm(h) => {
+                let n = Handle::into_dyn(&mut handles[h]);
+                handles.push(Some(n));
+                dash()
+            }
+            Ev::Al(h) => {
+                let n = at(&handles, h).raw_alias();
+                handles.push(Some(n));
+                dash()
+            }
+            Ev::Cf(i, j) => {
+                let source = at(&handles, j).duplicate();
+                let target = handles[i].as_mut().expect("handle numbers were checked while parsing");
+                target.clone_from_handle(&source);
+                drop(source);
+                dash()
+            }
         };
         out.push(tok);
     }
